@@ -31,9 +31,9 @@ MAX_CONFIRM = 6     # liveness verdicts re-run per check run
 
 def write_mc_cfg(path, *, chans="Chans1", msgs="MsgsA12", init_a="{0, 14}", init_b="{0, 14}", mode="set",
                  budget=0, deviations="{}", invariants=None, properties=None, emit=False, fair=False,
-                 max_rtx=3, win=2, constraint=None, props='{"C01", "C12", "C13"}'):
+                 max_rtx=3, win=2, constraint=None, props='{"C01", "C12", "C13"}', rwnd=9, delay_sack="FALSE"):
     inv = invariants if invariants is not None else ["TypeOK", "PrefixDelivery", "OneToOne", "OpenOnce",
-                                                     "OpenBeforeMessage", "ConsecutiveTsn", "WindowRespected"]
+                                                     "OpenBeforeMessage", "ConsecutiveTsn", "WindowRespected", "NewDataWithinWindow"]
     prop = properties if properties is not None else (["SetupIdempotent"] + (["EventuallyDelivered"] if fair else []))
     with open(path, "w") as f:
         f.write(f"""SPECIFICATION {'FairSpec' if fair else 'Spec'}
@@ -47,6 +47,8 @@ CONSTANTS
   MaxRtx = {max_rtx}
   MaxT1 = 2
   Win = {win}
+  Rwnd = {rwnd}
+  DelaySack = {delay_sack}
   Deviations = {deviations}
   NetMode = "{mode}"
   Budget = {budget}
